@@ -106,7 +106,7 @@ def apply_T(v: Lin) -> Lin:
 
 
 def affine_hook(ev: Evaluator, call: ast.Call, name):
-    nm = (name or "").split(".")[-1]
+    nm = call.func.attr if isinstance(call.func, ast.Attribute) else (name or "").split(".")[-1]
     if name in ("np.asarray", "np.array", "numpy.asarray", "numpy.array", "np.copy", "numpy.copy", "copy.copy", "copy.deepcopy") and call.args:
         return ev.eval(call.args[0])
     if isinstance(call.func, ast.Attribute) and call.func.attr == "copy" and not call.args:
@@ -378,7 +378,11 @@ def deep_copy(repo: Repo) -> RuleRun:
         if m is None:
             continue
         rets = [n for n in walk_shallow(m.node) if isinstance(n, ast.Return)]
-        ok = len(rets) == 1 and isinstance(rets[0].value, ast.Call) and attr_chain(rets[0].value.func) in ("copy.deepcopy", "deepcopy") and ast.unparse(rets[0].value.args[0]) == m.params[0]
+        rv = rets[0].value if len(rets) == 1 else None
+        if isinstance(rv, ast.Name):
+            defs = [n.value for n in walk_shallow(m.node) if isinstance(n, ast.Assign) and len(n.targets) == 1 and isinstance(n.targets[0], ast.Name) and n.targets[0].id == rv.id]
+            rv = defs[0] if len(defs) == 1 else rv
+        ok = isinstance(rv, ast.Call) and attr_chain(rv.func) in ("copy.deepcopy", "deepcopy") and bool(rv.args) and ast.unparse(rv.args[0]) == m.params[0]
         r.check(ok, m, "copy.deepcopy(self)", f"{m.qualname} is not a deep copy of self: the copy shares points/edges with the original and transforming one moves the other", m.node, key="copy")
     # deepcopy treats functions as atoms: a lambda / nested function that closes over `self` and is kept in the instance
     # still reads the ORIGINAL object's attributes in the copy (bound methods, in contrast, are re-bound to the copy)
@@ -673,6 +677,11 @@ def mirror_matrix(repo: Repo) -> RuleRun:
         else:
             r.require(False, f"mirror_matrix: statement '{ast.unparse(st)[:60]}' is outside the recognised shape (component bindings + one matrix literal)")
     r.require(ret is not None, "mirror_matrix does not return a matrix literal")
+    if isinstance(ret, ast.Name):
+        # returned through a local: take the expression it was bound to
+        defs = [st.value for st in fn.node.body if isinstance(st, ast.Assign) and len(st.targets) == 1 and isinstance(st.targets[0], ast.Name) and st.targets[0].id == ret.id]
+        r.require(len(defs) == 1, "mirror_matrix returns a name that is not bound exactly once")
+        ret = defs[0]
     lit = ret.args[0] if isinstance(ret, ast.Call) and (attr_chain(ret.func) or "").split(".")[-1] in ("array", "asarray") and ret.args else ret
     r.require(isinstance(lit, (ast.List, ast.Tuple)) and len(lit.elts) == 3 and all(isinstance(row, (ast.List, ast.Tuple)) and len(row.elts) == 3 for row in lit.elts), "mirror_matrix does not return a 3x3 literal")
     for i, row in enumerate(lit.elts):
